@@ -148,24 +148,43 @@ Definition hostport_ok (h : bytes) : bool :=
               | _, _ => false
               end
   end.
+(* net/url ParseRequestURI on an origin-form target ("/..."): no control byte anywhere, and every '%' in the
+   path part (before the first '?') is followed by two hex digits; the query is kept raw.  "//x" is a path. *)
+Definition is_ctl (b : Z) : bool := (b <? 32) || (b =? 127).
+Definition is_hexdig (b : Z) : bool := is_digit b || ((97 <=? b) && (b <=? 102)) || ((65 <=? b) && (b <=? 70)).
+Fixpoint escapes_ok (l : bytes) : bool :=
+  match l with
+  | [] => true
+  | x :: r =>
+    if x =? 37 then match r with a :: b :: r' => is_hexdig a && is_hexdig b && escapes_ok r' | _ => false end
+    else escapes_ok r
+  end.
+Definition path_part (t : bytes) : bytes := match index_byte 63 t with Some i => firstn i t | None => t end.
+Definition is_origin (t : bytes) : bool := match t with x :: _ => x =? 47 | [] => false end.
+Definition origin_class (t : bytes) : Z :=
+  if existsb is_ctl t then 3 else if escapes_ok (path_part t) then 1 else 3.
+(* CONNECT with a target that does not start with '/' is parsed as "http://" + target (authority-form) *)
 Definition target_class (m t : bytes) : Z :=
-  if bytes_eqb m s_connect then 0
+  if is_origin t then origin_class t
+  else if bytes_eqb m s_connect then (if hostport_ok t then 2 else 0)
   else match t with
   | [] => 3
   | [42] => 1
-  | 47 :: 47 :: _ => 0
-  | 47 :: r => if forallb safe_path_byte r then 1 else 0
   | _ =>
     if is_prefix s_httpcss t then
       let r := skipn 7 t in
       let (h, p) := match index_byte 47 r with Some i => (firstn i r, skipn i r) | None => (r, []) end in
       if hostport_ok h && forallb safe_path_byte p then 2 else 0
-    else 0
+    else if existsb (Z.eqb 58) t then 0 else 3
   end.
-Definition target_host (t : bytes) : bytes :=
-  if is_prefix s_httpcss t then
+Definition target_host (m t : bytes) : bytes :=
+  if is_origin t then []
+  else if bytes_eqb m s_connect then t
+  else if is_prefix s_httpcss t then
     let r := skipn 7 t in match index_byte 47 r with Some i => firstn i r | None => r end
   else [].
+(* maxUriBytes as passed by the harness *)
+Definition max_uri : Z := 60.
 
 (* ---------- header fields ---------- *)
 Definition fields := list (bytes * bytes).
@@ -305,12 +324,13 @@ Definition V_ref : validators :=
 Record reqmeta := { r_method : bytes; r_target : bytes; r_proto : bytes; r_fields : fields; r_framing : framing }.
 
 (* error codes: 1 unexpected EOF, 2 request line / method, 4 version, 5 target, 6 header block (line without
-   colon, or first line starts with SP/HTAB: fix fe4368d), 12 field name, 7 8 9 framing, 98 target not modelled *)
+   colon, or first line starts with SP/HTAB: fix fe4368d), 12 field name, 7 8 9 framing, 3 target longer than maxUriBytes, 98 target not modelled *)
 Definition validate (V : validators) (hd : head) : Z + reqmeta :=
   match parse_request_line (h_reqline hd) with
   | None => inl 2
   | Some (m, t, p) =>
     if negb (v_method V m) then inl 2
+    else if max_uri <? blen t then inl 3
     else if negb (v_version V p) then inl 4
     else if target_class m t =? 0 then inl 98
     else if target_class m t =? 3 then inl 5
@@ -409,8 +429,8 @@ Fixpoint parse_stream (V : validators) (fuel : nat) (s : bytes) {struct fuel} : 
 Definition parse_all (V : validators) (s : bytes) : list request * Z := parse_stream V (S (length s)) s.
 
 (* ---------- what BFE leaves in Request.Host / Request.Header (ReadRequest + readTransfer mutations) ---------- *)
-Definition bfe_host (t : bytes) (h : fields) : bytes :=
-  match target_host t with [] => get_first s_host h | a => a end.
+Definition bfe_host (m t : bytes) (h : fields) : bytes :=
+  match target_host m t with [] => get_first s_host h | a => a end.
 Fixpoint dedupe_cl (first : bytes) (seen : bool) (h : fields) : fields :=
   match h with
   | [] => []
@@ -492,6 +512,6 @@ Fixpoint obs_prefix (total : Z) (os : list obs) (qs : list request) : bool :=
 Definition bfe_obs (total : Z) (q : request) : obs :=
   let m := q_meta q in
   {| o_method := r_method m; o_target := r_target m; o_proto := r_proto m;
-     o_host := bfe_host (r_target m) (r_fields m);
+     o_host := bfe_host (r_method m) (r_target m) (r_fields m);
      o_fields := bfe_final_fields (r_fields m) (r_framing m);
      o_body := q_body q; o_off := total - blen (q_rest q) |}.
